@@ -165,10 +165,14 @@ def check_c13(prop, tier, seed):
     grid = [(1, 50), (2, 250), (10, 250)] if quick else [(b, d) for b in (1, 2, 3, 10) for d in (50, 250, 5000)]
     callers = [4, 8, 16] if quick else [2, 5, 8, 16, 32]
     outs = run_pool(run, exe, "cuts", grid, callers, 100 if quick else 600, seed)
+    # a pool that has grown to seven connections and more in front of a flapping backend (windows in which every
+    # connection is cut at its next request): the handler's retry bounds depend on the size of the pool
+    outs += run_pool(run, exe, "flap", [(2, 250)] if quick else [(1, 50), (2, 250), (10, 250)], [6] if quick else [6, 3, 12], 400 if quick else 800, seed + 3, tag="flap/")
     info = digest(run, pl, outs, prop)
     pl.validate()
     pl.finish_extra()
     run.extra["pool_runs"] = {k: {"summary": v.get("summary"), "exit": v.get("proc", {}).get("exit")} for k, v in info.items()}
     run.assumptions += ["a call that ended in an error may or may not have taken effect (admissible-set oracle of OrcaTrace)",
+                        "flapping backend: from 6.5 s on (the pool's monitor adds a connection per second) windows of 1.5 s in which every connection is cut before the reply to its next request, 0.5 s apart",
                         "cut storm: every 2-27 ms one of: close all pooled connections (optionally refusing new ones for up to 40 ms), cut inside one of the next replies, cut before/after one of the next requests"]
     return run.finish(exhaustive=False, rule="concurrent callers under a seeded storm of connection cuts; each caller's calls form a trace validated by TLC against its private reference map; process exit status and service after the storm are checked")
